@@ -69,6 +69,8 @@ def stat(s):
         return ('label', name_of(s.label))
     if k == 'StatBreak':
         return ('break',)
+    if k == 'StatPrintShort':
+        return ('qprint', explist(s.explist) if s.explist is not None else None)
     if k == 'StatReturn':
         return ('return', explist(s.explist) if s.explist is not None else None)
     raise AdaptError('unknown statement node %s' % k)
